@@ -287,6 +287,7 @@ func (zns *ZnPMServer) readNamedPipe(pipe *pipe) {
 		pid = int(binary.BigEndian.Uint32(buf))
 		state = buf[4]
 
+		verifReportDelay()
 		zns.updateChan <- workerState{
 			pid:   pid,
 			state: state,
